@@ -58,8 +58,8 @@ def Eqv (a b : Tracer) : Prop := TEq a b ∧ TEq b a
 
 mutual
 /-- what every tracer `from_samples` can reach satisfies: primitive nodes hold a reachable leaf state (type of the
-alphabet, no strategy, `Null` only with the nullable flag), struct fields have distinct names and
-`last_seen_in_sample < seen_samples` between two samples -/
+alphabet, no strategy, `Null` only with the nullable flag), struct fields have distinct names, the tracer of a field is
+named after the field, and `last_seen_in_sample < seen_samples` between two samples -/
 def WF (o : Options) : Tracer → Prop
   | .unknown _ _ _ => True
   | .primitive _ _ nl ty st => st = none ∧ (some ty, nl) ∈ leafStates o
@@ -73,7 +73,7 @@ def TsWF (o : Options) : Tracers → Prop
   | .cons t r => WF o t ∧ TsWF o r
 def FWF (o : Options) (s : Nat) : TFields → Prop
   | .nil => True
-  | .cons n l t r => l < s ∧ r.find n = none ∧ WF o t ∧ FWF o s r
+  | .cons n l t r => l < s ∧ r.find n = none ∧ t.name = n ∧ WF o t ∧ FWF o s r
 def VWF (o : Options) : Variants → Prop
   | .nil => True
   | .absent r => VWF o r
